@@ -138,8 +138,11 @@ def array_layout(spec, mem, off):
         header_strides = [i64(mem, off + cur + 8 * i) for i in range(nd)]
         cur += 8 * nd
     itemsize = 8 if dyn_item else static_size(spec["item"])
-    strides = strides_for(shape, spec["order"], itemsize)
     n = math.prod(shape)
+    if n * max(itemsize, 1) > max(len(mem) - off, 0):
+        # garbage header words: the items cannot lie inside the image (also keeps the decoder itself bounded)
+        raise LayoutError("array_header", f"shape {shape} x item size {itemsize} does not fit in the {len(mem) - off} bytes behind offset {off}")
+    strides = strides_for(shape, spec["order"], itemsize)
     table_offset = None
     if dyn_item:
         table_offset = cur
